@@ -630,6 +630,13 @@ def sweep_configs(tier):
     out.append(dict(base, model="parallelepiped", q="xy4", sched_seed=9, pars=dict(
         [(k + "_pd", 0.1 if k.startswith("length") else 5.0) for k in ("length_a", "length_b", "length_c", "theta", "phi", "psi")]
         + [(k + "_pd_n", 2) for k in ("length_a", "length_b", "length_c", "theta", "phi", "psi")])))
+    out.append(dict(base, model="sphere", q="xy6", sched_seed=13, pars={
+        "radius_pd": 0.2, "radius_pd_n": 140, "sld_M0": 2.0, "sld_mtheta": 35.0, "sld_mphi": 20.0,
+        "up_frac_i": 0.3, "up_frac_f": 0.6, "up_theta": 60.0, "up_phi": 15.0}))
+    out.append(dict(base, model="cylinder", q="xy4", sched_seed=14, cutoff=1e-5, pars={
+        "radius_pd": 0.1, "radius_pd_n": 6, "theta_pd": 10.0, "theta_pd_n": 5, "phi_pd": 8.0, "phi_pd_n": 4,
+        "theta": 40.0, "phi": 25.0, "sld_M0": 1.5, "sld_mtheta": 70.0, "sld_solvent_M0": 0.5,
+        "up_frac_i": 0.1, "up_theta": 30.0}))
     out.append(dict(base, model="sphere", q="q3", sched_seed=10, dtype="single", pars={
         "radius_pd": 0.3, "radius_pd_n": 1300, "radius_pd_type": "lognormal"}))
     out.append(dict(base, model="vesicle", q="q6", sched_seed=11, dtype="single", mode=1, pars={
